@@ -1,12 +1,3 @@
-// Kani harnesses mounted inside src/live_events.rs.
-//
-// The event pump (C02 / C08 / C11) is NOT claimed by this machinery: see DESIGN.md §9.4. The
-// single-step harnesses that were written for it are kept in /verif/harness/attic/
-// h_live_events_pump_steps.rs together with the measurements that led to withdrawing them
-// (every one of them ran out of 16-28 GB or did not finish in 30 min: `Error`'s drop glue, which
-// contains `std::io::Error` -> `Box<dyn Error>` recursion, is unfolded at every `?`, and
-// `SmallVec<[Ev; 8]>` of 100-byte enum values makes each `push(ev.clone())` an array-theory blow-up).
-
 // C16: while an alias is being replayed the use-site location is the alias token's, whatever the
 // replay position; without a replay it is the lookahead event's (or the last) location.
 use super::*;
@@ -72,6 +63,3 @@ fn c16_reference_location_during_replay() {
     }
     std::mem::forget(le);
 }
-
-// concrete-playback slot: bin/check writes the solver counterexample here as a unit test for native replay
-include!("/verif/.build/playback/live_events_pb.rs");
